@@ -124,60 +124,108 @@ def r2_formulas(L, repo):
             return v if isinstance(v, int) and not isinstance(v, bool) else None
         except (Unknown, Raised):
             return None
-    # RSSI
-    stores = [n for n in ast.walk(hd) if isinstance(n, ast.Assign) and canon(n.targets[0]) == "%s.rssi" % MSG]
-    seen = {"formula": 0, "fake": 0, "noise": 0}
-    for s in stores:
-        lits = guard_literals(cfg, cfg.node_of(s))
-        v = canon(s.value)
-        if ("self.fake_rssi_enabled", False) in lits:
-            seen["formula"] += 1
-            e = inline_props(repo, ci, s.value, SRC)
-            t = X.PyLower(const=const).lower(e)
-            co, c0 = X.linear(t)
-            # the path-loss term: a non-positive constant, or -1 x a configuration attribute of the recipient that is
-            # written only by its constructor (the property fixes the form of the sum, not the number of dB)
-            co = dict(co)
-            pl_attr = [k for k in co if k.startswith("self.") and co[k] == -1]
-            pl_desc = c0
-            if len(pl_attr) == 1 and c0 == 0:
-                a_ = pl_attr[0][5:]
-                writers = set()
-                for m_ in repo.tk_modules():
-                    for n_, k_ in attr_accesses(m_.tree, a_):
-                        if k_ != "load":
-                            writers.add(qualname(n_))
-                if writers <= {"FakeTRX.__init__"} and writers:
-                    del co[pl_attr[0]]
-                    pl_desc = "-%s (set by the constructor only)" % pl_attr[0]
-            want = {"%s.tx_power_base" % SRC: 1, "%s.tx_att_base" % SRC: -1, "%s.pwr" % SMSG: -1}
-            okc = isinstance(pl_desc, str) or (isinstance(pl_desc, int) and pl_desc <= 0)
-            L.ob("C10.R2", F, fn, "RSSI = sender nominal power - sender attenuation - burst attenuation - path loss",
-                 (want, "- path loss (a constant or a constructor-only attribute of the recipient)"), (co, pl_desc),
-                 co == want and okc, s.lineno)
-        elif ("self.fake_rssi_enabled", True) in lits:
-            seen["fake"] += 1
-            L.require("C10.R2", F, fn, "with FAKE_RSSI the value comes from the recipient's RSSI window", "self.rssi", v, line=s.lineno)
+    # RSSI and ToA256 of a forwarded burst: complete decision table of handle_data_msg over its branch conditions; per
+    # row the FINAL values of msg.rssi / msg.toa256 (assignments and in-place corrections composed, conditional
+    # expressions resolved) as linear normal forms - however the statements are split, merged or moved into helpers
+    DELIV = "Transceiver.handle_data_msg(self, %s)" % MSG
+
+    def ev_(st):
+        if isinstance(st, ast.Return):
+            return ("ret",)
+        if isinstance(st, ast.Assign) and len(st.targets) == 1 and canon(st.targets[0]) in ("%s.rssi" % MSG, "%s.toa256" % MSG):
+            return ("set", canon(st.targets[0])[len(MSG) + 1:], st.value)
+        if isinstance(st, ast.AugAssign) and canon(st.target) in ("%s.rssi" % MSG, "%s.toa256" % MSG):
+            return ("aug", canon(st.target)[len(MSG) + 1:], st.op, st.value)
+        if isinstance(st, ast.Expr) and isinstance(st.value, ast.Call) and canon(st.value) in (DELIV, "super().handle_data_msg(%s)" % MSG):
+            return ("deliver",)
+        return None
+    Wt = Walker(ev_)
+    atoms = Wt.atoms(hd.body)
+    A_FAKE, A_TA0 = "self.fake_rssi_enabled", "0 == %s.ta" % SRC
+    for need in (A_FAKE,):
+        if need not in atoms:
+            atoms.append(need)
+    if len(atoms) > 10:
+        raise AnalysisError("handle_data_msg: too many branch atoms for a decision table: %s" % atoms)
+    import itertools
+    n_fwd = 0
+    seen_formula = seen_fake = 0
+    for vals in itertools.product([False, True], repeat=len(atoms)):
+        a_ = dict(zip(atoms, vals))
+        evs = []
+        Wt.locals = {}
+        Wt.walk(hd.body, dict(a_), evs)
+        if ("deliver",) not in evs:
+            continue            # suppressed burst (NOPE / drop): decided by C18
+        n_fwd += 1
+        cut = evs.index(("deliver",))
+        fin = {}
+        for e_ in evs[:cut]:
+            if e_[0] == "set":
+                fin[e_[1]] = e_[2]
+            elif e_[0] == "aug" and e_[1] in fin:
+                fin[e_[1]] = ast.BinOp(left=fin[e_[1]], op=e_[2], right=e_[3])
+        late = [e_ for e_ in evs[cut:] if e_[0] in ("set", "aug")]
+        rowtxt = ", ".join("%s=%d" % (k[:32], v) for k, v in sorted(a_.items()))
+        L.ob("C10.R2", F, fn, "no field is changed after the burst was handed on [%s]" % rowtxt, [], [x[1] for x in late], not late, hd.lineno)
+        # ToA256
+        if "toa256" not in fin:
+            L.ob("C10.R2", F, fn, "ToA256 is set for a forwarded burst [%s]" % rowtxt, "set", "never assigned", False, hd.lineno)
         else:
-            seen["noise"] += 1
-    L.require("C10.R2", F, fn, "RSSI stores (formula, FAKE_RSSI, NOPE noise)", {"formula": 1, "fake": 1, "noise": 1}, seen)
-    # ToA256: base - 256 * TA
-    st = [n for n in ast.walk(hd) if isinstance(n, (ast.Assign, ast.AugAssign)) and
-          canon(n.targets[0] if isinstance(n, ast.Assign) else n.target) == "%s.toa256" % MSG]
-    plain = [s for s in st if isinstance(s, ast.Assign) and canon(s.value) == "self.toa256"]
-    aug = [s for s in st if isinstance(s, ast.AugAssign)]
-    L.require("C10.R2", F, fn, "ToA256 starts from the recipient's configured ToA window", 1, len(plain))
-    L.require("C10.R2", F, fn, "one timing-advance correction", 1, len(aug))
-    for a in aug:
-        t = X.PyLower(const=const).lower(ast.BinOp(left=ast.Name(id="TOA", ctx=ast.Load()), op=a.op, right=a.value))
-        co, c0 = X.linear(t)
-        L.require("C10.R2", F, fn, "ToA256 = base - 256 x sender timing advance", ({"TOA": 1, "%s.ta" % SRC: -256}, 0), (co, c0), line=a.lineno)
-        lits = guard_literals(cfg, cfg.node_of(a))
-        extra = {l for l in lits if l[0] not in ("%s.nope_ind" % MSG,) and not (l[0] == "0 == %s.ta" % SRC and not l[1])}
-        L.ob("C10.R2", F, fn, "the correction applies to every forwarded burst (skipping it only for TA == 0)",
-             "no other condition", lit_fmt(extra), not extra, a.lineno)
-        if plain:
-            L.ob("C10.R2", F, fn, "the correction follows the base assignment", "after", "", cfg.dominates(cfg.node_of(plain[0]), cfg.node_of(a)))
+            try:
+                co, c0 = X.linear(X.PyLower(const=const).lower(fin["toa256"]))
+            except AnalysisError:
+                co, c0 = {"<not linear>": canon(fin["toa256"])[:60]}, None
+            want_t = ({"self.toa256": 1, "%s.ta" % SRC: -256}, 0)
+            ok_t = (co, c0) == want_t or (a_.get(A_TA0) is True and (co, c0) == ({"self.toa256": 1}, 0))
+            L.ob("C10.R2", F, fn, "ToA256 = recipient's ToA window value - 256 x sender timing advance [%s]" % rowtxt,
+                 want_t, (co, c0), ok_t, hd.lineno)
+        # RSSI
+        if "rssi" not in fin:
+            L.ob("C10.R2", F, fn, "RSSI is set for a forwarded burst [%s]" % rowtxt, "set", "never assigned", False, hd.lineno)
+            continue
+        rv = fin["rssi"]
+        # a conditional expression on the FAKE_RSSI switch is resolved by the row
+        while isinstance(rv, ast.IfExp):
+            lits_ = literals(rv.test, True)
+            if lits_ == {(A_FAKE, True)}:
+                rv = rv.body if a_[A_FAKE] else rv.orelse
+            elif lits_ == {(A_FAKE, False)}:
+                rv = rv.orelse if a_[A_FAKE] else rv.body
+            else:
+                break
+        if a_[A_FAKE]:
+            seen_fake += 1
+            L.require("C10.R2", F, fn, "with FAKE_RSSI the value comes from the recipient's RSSI window [%s]" % rowtxt, "self.rssi", canon(rv), line=hd.lineno)
+            continue
+        seen_formula += 1
+        e = inline_props(repo, ci, rv, SRC)
+        try:
+            co, c0 = X.linear(X.PyLower(const=const).lower(e))
+        except AnalysisError:
+            co, c0 = {"<not linear>": canon(rv)[:60]}, None
+        # the path-loss term: a non-positive constant, or -1 x a configuration attribute of the recipient that is
+        # written only by its constructor (the property fixes the form of the sum, not the number of dB)
+        co = dict(co)
+        pl_attr = [k for k in co if k.startswith("self.") and co[k] == -1]
+        pl_desc = c0
+        if len(pl_attr) == 1 and c0 == 0:
+            a1 = pl_attr[0][5:]
+            writers = set()
+            for m_ in repo.tk_modules():
+                for n_, k_ in attr_accesses(m_.tree, a1):
+                    if k_ != "load":
+                        writers.add(qualname(n_))
+            if writers <= {"FakeTRX.__init__"} and writers:
+                del co[pl_attr[0]]
+                pl_desc = "-%s (set by the constructor only)" % pl_attr[0]
+        want = {"%s.tx_power_base" % SRC: 1, "%s.tx_att_base" % SRC: -1, "%s.pwr" % SMSG: -1}
+        okc = isinstance(pl_desc, str) or (isinstance(pl_desc, int) and pl_desc <= 0)
+        L.ob("C10.R2", F, fn, "RSSI = sender nominal power - sender attenuation - burst attenuation - path loss [%s]" % rowtxt,
+             (want, "- path loss (a constant or a constructor-only attribute of the recipient)"), (co, pl_desc),
+             co == want and okc, hd.lineno)
+    L.floor("C10.R2", "decision-table rows that forward a burst", n_fwd, 2)
+    L.floor("C10.R2", "forwarding rows using the RSSI formula / the FAKE_RSSI window", min(seen_formula, seen_fake), 1)
     # C/I
     c, h1 = repo.need_method("fake_trx", "FakeTRX", "_handle_data_msg_v1")
     P1 = params(h1)
@@ -189,6 +237,34 @@ def r2_formulas(L, repo):
         c, m = repo.find_method(ci, prop)
         if m is None:
             raise AnalysisError("FakeTRX.%s vanished" % prop)
+        # decided by folding the property for boundary witnesses of (base, threshold >= 0), the random draw as an
+        # oracle that records its range: base itself for threshold 0, a draw from [base - thr, base + thr] otherwise
+        folded = True
+        bad = []
+        for b_ in (-1280, -3, 0, 7, 1280):
+            for t_ in (0, 1, 5, 300):
+                draws = []
+
+                def rnd(a_, draws=draws):
+                    draws.append((a_[0], a_[1]))
+                    return ("draw", a_[0], a_[1])
+                e_ = Ev(repo, ci.mod, env={"self.%s" % base: b_, "self.%s" % thr: t_}, self_cls=ci)
+                e_.hooks = {"random.randint": rnd, "randint": rnd}
+                try:
+                    r_ = e_.run_block(m.body)
+                except (Unknown, Raised):
+                    folded = False
+                    break
+                v_ = r_[1] if isinstance(r_, tuple) else None
+                want_ = b_ if t_ == 0 else ("draw", b_ - t_, b_ + t_)
+                if v_ != want_ or (t_ == 0 and draws):
+                    bad.append({"base": b_, "threshold": t_, "value": v_})
+            if not folded:
+                break
+        if folded:
+            L.ob("C10.R2", F, "FakeTRX.%s" % prop, "%s = base when the threshold is 0, else drawn from [base - threshold, base + threshold] (folded for 20 boundary witnesses)" % prop,
+                 [], bad[:3], not bad, m.lineno)
+            continue
         fw = Fwd(split=True)
         fw.run(m.body)
         got = {}
@@ -360,10 +436,8 @@ def r3_mod_tsc(L, repo):
     # (structural proof for every burst; when the code has another shape the witness fold above decides)
     loops = [n for n in pk.body if isinstance(n, ast.For)]
     if folded_pick:
-        try:
-            _pick_structure(L, repo, pk, B, gs, ref, FG, loops)
-        except AnalysisError as e:
-            L.extra["c10_pick_structure"] = "not recognised (%s); decided by the witness fold" % str(e)[:80]
+        L.structural("C10.R3 slices compared by TrainingSeqGMSK.pick (path enumeration of the loop body)",
+                     _pick_structure, L, repo, pk, B, gs, ref, FG, loops)
     else:
         _pick_structure(L, repo, pk, B, gs, ref, FG, loops)
     _generators(L, repo, ref)
